@@ -13,6 +13,9 @@
     C02_local_xmlns       only an unprefixed `xmlns` (or the `xmlns:` prefix) is a declaration
     C02_merge, C02_scope_nearest / _base / _unprefixed_attribute   builder-side pieces of merging
                           and XML-Namespaces scoping
+    C02_scope_invariant, C02_scope_strings, C02_scope_element, C02_scope_attribute   for EVERY token
+                          list: the id-level prefix lookup is "nearest enclosing declaration wins" on
+                          the declared (decoded) prefix / URI STRINGS
     C02_spelled_fragment / C02_spelled_document   TREE LEVEL, documents without namespaces: for every
                           abstract document and every spelling of it (pieces, CDATA interleaving,
                           empty-element tags, all positions) `parse_fragment` / `parse` on its tokens
@@ -25,6 +28,7 @@ import XotModel.Lemmas.ParseContent
 import XotModel.Lemmas.Parse
 import XotModel.Lemmas.ParseWitnessData
 import XotModel.Lemmas.ParseSpellTop
+import XotModel.Lemmas.ParseScope
 
 namespace XotModel.Props
 open XotModel XotModel.Witness
@@ -163,6 +167,47 @@ theorem C02_scope_unprefixed_attribute (env : Env) (stack : NsStack) (name : Str
   attributeNameId_unprefixed env stack name sp h
 
 example : Env.fresh.prefixes.head? = some [] := rfl
+
+/-! ### Scoping on strings: names are resolved by XML-Namespaces scoping, for EVERY token list
+
+`strStack env stack` reads the builder's namespace stack back as frames of (prefix, URI) strings —
+one frame per open element, holding the declarations its start tag wrote, decoded — and `lookupStr`
+is "the nearest enclosing declaration of this prefix wins". -/
+
+/-- The invariant holds in every state the token loop reaches from a duplicate-free `Env`. -/
+theorem C02_scope_invariant {env : Env} (hp : env.prefixes.Nodup) (hn : env.namespaces.Nodup)
+    (h2p : 2 ≤ env.prefixes.length) (h2n : 2 ≤ env.namespaces.length)
+    (ts : List Token) (lexErr : Option Nat) (b : Builder) (hr : (Builder.new env).run ts lexErr = .ok b) :
+    ScopeOk b :=
+  run_scopeOk ts lexErr (scopeOk_new hp hn h2p h2n) hr
+
+/-- The namespace id a prefix resolves to names the URI string that scoping gives. -/
+theorem C02_scope_strings {env : Env} (hn : env.prefixes.Nodup) (p : Str) (stack : NsStack) (hs : StackValid env stack) :
+    (lookupPrefix stack (env.internPrefix p).2).map env.namespaceStr = lookupStr (strStack env stack) p :=
+  lookupPrefix_str hn p stack hs
+
+/-- An element is named (local name as written, namespace = what scoping gives for its prefix as
+    written over its own and its ancestors' declarations). -/
+theorem C02_scope_element {b : Builder} (h : ScopeOk b) (eb : ElementBuilder) (heb : b.eb = some eb)
+    {env1 : Env} {id : Nat}
+    (hname : elementNameId b.env (eb.namespaces :: b.nsStack) eb.pfx eb.name eb.prefixSpan = .ok (env1, id)) :
+    ∃ nid, env1.names[id]? = some (eb.name, nid) ∧
+      some (b.env.namespaceStr nid) = lookupStr (strStack b.env (eb.namespaces :: b.nsStack)) eb.pfx :=
+  elementNameId_str h (fun d hd => by
+    simp only [List.mem_cons] at hd
+    rcases hd with rfl | hd
+    · exact h.eb eb heb
+    · exact h.stack d hd) hname
+
+/-- An attribute: unprefixed = no namespace (whatever the default namespace is), prefixed = scoping. -/
+theorem C02_scope_attribute {b : Builder} (h : ScopeOk b) {stack : NsStack} (hs : StackValid b.env stack)
+    {pfx name : Str} {sp : Span} {env1 : Env} {id : Nat} (hp0 : b.env.prefixes.head? = some [])
+    (hname : attributeNameId b.env stack pfx name sp = .ok (env1, id)) :
+    ∃ nid, env1.names[id]? = some (name, nid) ∧ (pfx = [] → nid = Env.noNamespace) ∧
+      (pfx ≠ [] → some (b.env.namespaceStr nid) = lookupStr (strStack b.env stack) pfx) :=
+  attributeNameId_str h hs hp0 hname
+
+example : Env.fresh.prefixes.Nodup ∧ Env.fresh.namespaces.Nodup := by decide
 
 /-! ### C02_spelled: every spelling of every namespace-free document parses to that document
 
